@@ -146,6 +146,8 @@ pub struct AppProgram {
     pub recv: RecvStyle,
     /// stash requests until `Step::AppGo`, then handle them in arrival order
     pub deferred: bool,
+    /// every request is handled on a thread of its own
+    pub thread_per_request: bool,
 }
 
 impl AppProgram {
@@ -154,6 +156,7 @@ impl AppProgram {
             plans: vec![ReqPlan::simple()],
             recv: RecvStyle::Recv,
             deferred: false,
+            thread_per_request: false,
         }
     }
     pub fn uniform(p: ReqPlan) -> AppProgram {
@@ -161,6 +164,15 @@ impl AppProgram {
             plans: vec![p],
             recv: RecvStyle::Recv,
             deferred: false,
+            thread_per_request: false,
+        }
+    }
+    pub fn with_plans(plans: Vec<ReqPlan>) -> AppProgram {
+        AppProgram {
+            plans,
+            recv: RecvStyle::Recv,
+            deferred: false,
+            thread_per_request: false,
         }
     }
 }
@@ -502,6 +514,7 @@ pub fn app_thread(server: Arc<Server>, app: AppProgram, obs: SharedObs) {
     let mut next_id = 0usize;
     let mut stash: Vec<Request> = Vec::new();
     let mut deferred = app.deferred;
+    let mut handlers = Vec::new();
     loop {
         let got: Result<Option<Request>, String> = match app.recv {
             RecvStyle::Recv => server.recv().map(Some).map_err(|e| e.to_string()),
@@ -518,6 +531,13 @@ pub fn app_thread(server: Arc<Server>, app: AppProgram, obs: SharedObs) {
                 if deferred {
                     // the request is looked at when it arrives, handled later
                     stash.push(rq);
+                } else if app.thread_per_request {
+                    let plan = plan_for(&app, next_id);
+                    let (o, id) = (obs.clone(), next_id);
+                    handlers.push(thread::spawn_named(Some(format!("handler{}", id)), move || {
+                        handle_request_slot(rq, id, &plan, &o)
+                    }));
+                    next_id += 1;
                 } else {
                     let plan = plan_for(&app, next_id);
                     handle_request(rq, next_id, &plan, &obs);
@@ -554,6 +574,30 @@ pub fn app_thread(server: Arc<Server>, app: AppProgram, obs: SharedObs) {
             }
         }
     }
+    for h in handlers {
+        let _ = h.join();
+    }
+}
+
+/// Like `handle_request`, but the observation is stored at index `id` (handler threads
+/// finish in any order; the oracle wants delivery order).
+pub fn handle_request_slot(mut rq: Request, id: usize, plan: &ReqPlan, obs: &SharedObs) {
+    if rq.url() == "/probe" {
+        let _ = rq.respond(Response::from_string("alive"));
+        return;
+    }
+    let mut ob = describe_request(&rq);
+    {
+        let mut o = obs.lock().unwrap();
+        while o.reqs.len() <= id {
+            o.reqs.push(ReqObs::default());
+        }
+        o.reqs[id] = ob.clone();
+    }
+    read_body(&mut rq, &plan.read, &mut ob);
+    obs.lock().unwrap().reqs[id] = ob.clone();
+    finish_request(rq, id, &plan.finish, &mut ob);
+    obs.lock().unwrap().reqs[id] = ob;
 }
 
 // ------------------------------------------------------------------------- the run
@@ -840,6 +884,7 @@ pub fn scenario_json(sc: &Scenario) -> Value {
             "plans": sc.app.plans.iter().map(|p| json!({"read": read_plan_json(&p.read), "finish": finish_json(&p.finish)})).collect::<Vec<_>>(),
             "recv": match sc.app.recv { RecvStyle::Recv => json!("recv"), RecvStyle::Iter => json!("iter"), RecvStyle::RecvTimeout(ms) => json!({"recv_timeout_ms": ms}) },
             "deferred": sc.app.deferred,
+            "thread_per_request": sc.app.thread_per_request,
         },
         "probe_after": sc.probe_after,
         "idle_after": sc.idle_after,
@@ -904,6 +949,7 @@ pub fn scenario_from_json(v: &Value) -> Scenario {
                     .unwrap_or(RecvStyle::Recv),
             },
             deferred: app["deferred"].as_bool().unwrap_or(false),
+            thread_per_request: app["thread_per_request"].as_bool().unwrap_or(false),
         },
         probe_after: v["probe_after"].as_bool().unwrap_or(false),
         idle_after: v["idle_after"].as_bool().unwrap_or(false),
